@@ -157,7 +157,7 @@ func TestCheck(t *testing.T) {
 			cfg := r.Config
 			var v *explore.Violation
 			if isSock(cfg.Kind) {
-				v, _, _ = explore.ReplayOnce(sockBody(&cfg), r.Choices, cfg.Budget, &worker{ip: "127.6.200.1", port: 20000})
+				v, _, _ = explore.ReplayOnce(sockBody(&cfg), r.Choices, cfg.Budget, &worker{ip: procIP(200), port: 20000})
 			} else {
 				v, _, _ = explore.ReplayOnce(bubbleBody(t, &cfg), r.Choices, cfg.Budget, nil)
 			}
@@ -222,7 +222,7 @@ func TestCheck(t *testing.T) {
 			var st *explore.Stats
 			if isSock(cfg.Kind) {
 				st = explore.Run(sockBody(&cfg), explore.Options{Budget: cfg.Budget, Workers: env.Workers, Deadline: dl, Samples: 1,
-					Setup: func(w int) any { return &worker{ip: fmt.Sprintf("127.6.%d.1", w+1), port: 20000 + (w*131)%1000} }})
+					Setup: func(w int) any { return &worker{ip: procIP(w + 1), port: 20000 + (w*131)%1000} }})
 			} else {
 				st = explore.Run(bubbleBody(t, &cfg), explore.Options{Budget: cfg.Budget, Workers: env.Workers, Deadline: dl, Samples: 1})
 			}
@@ -279,3 +279,6 @@ func unconfirmed(confirmed map[string]hres.Viol) map[string][]string {
 	}
 	return out
 }
+
+// procIP: a loopback address private to this worker of this process (concurrent runs of the check must never meet on an address).
+func procIP(w int) string { return fmt.Sprintf("127.6.%d.%d", w, 1+os.Getpid()%250) }
